@@ -7,6 +7,8 @@
             Exp::Variable(n) => Some(if n == "x" { x } else { y }),
             Exp::UnOp(UnOp::Neg, a) => ev(a, x, y).map(|v| -v),
             Exp::Abs(a) => ev(a, x, y).map(|v| v.abs()),
+            Exp::Min(es) => { if es.is_empty() { return None; } let mut m = f64::INFINITY; for e in es { m = m.min(ev(e, x, y)?); } Some(m) }
+            Exp::Max(es) => { if es.is_empty() { return None; } let mut m = f64::NEG_INFINITY; for e in es { m = m.max(ev(e, x, y)?); } Some(m) }
             Exp::BinOp(op, a, b) => {
                 let (a, b) = (ev(a, x, y)?, ev(b, x, y)?);
                 match op {
@@ -21,11 +23,12 @@
         }
     }
     // a division by zero, or by an expression containing a variable
-    fn has_var(e: &Exp) -> bool { match e { Exp::Variable(_) => true, Exp::Number(_) => false, Exp::UnOp(_, a) | Exp::Abs(a) => has_var(a), Exp::BinOp(_, a, b) => has_var(a) || has_var(b), _ => false } }
+    fn has_var(e: &Exp) -> bool { match e { Exp::Variable(_) => true, Exp::Number(_) => false, Exp::UnOp(_, a) | Exp::Abs(a) => has_var(a), Exp::BinOp(_, a, b) => has_var(a) || has_var(b), Exp::Min(es) | Exp::Max(es) => es.iter().any(has_var), _ => false } }
     fn bad(e: &Exp) -> bool {
         match e {
             Exp::BinOp(op, a, b) => (matches!(op, BinOp::Div) && (has_var(b) || ev(b, 0.0, 0.0).map(|v| v == 0.0).unwrap_or(true))) || bad(a) || bad(b),
             Exp::UnOp(_, a) | Exp::Abs(a) => bad(a),
+            Exp::Min(es) | Exp::Max(es) => es.iter().any(bad),
             _ => false,
         }
     }
@@ -68,6 +71,23 @@
             }
         }
         pool.extend(l2);
+        // unsafe divisions under abs / min / max / neg wrappers, multiplied by a (literal or folded) zero on either side
+        {
+            let x = || Exp::Variable("x".to_string());
+            let n = |c: f64| Exp::Number(c);
+            let b = |op: BinOp, a: Exp, c: Exp| Exp::BinOp(op, a.to_box(), c.to_box());
+            let divs = vec![b(BinOp::Div, n(1.0), x()), b(BinOp::Div, x(), n(0.0)), b(BinOp::Div, n(4.0), b(BinOp::Sub, n(1.0), n(1.0))), b(BinOp::Div, n(1.0), b(BinOp::Add, x(), n(1.0)))];
+            let zeros = vec![n(0.0), b(BinOp::Sub, n(4.0), n(4.0)), b(BinOp::Mul, n(0.0), n(-2.0))];
+            for d in &divs {
+                let wraps = vec![d.clone(), Exp::Abs(d.clone().to_box()), Exp::UnOp(UnOp::Neg, d.clone().to_box()), Exp::Min(vec![d.clone(), n(4.0)]), Exp::Max(vec![n(1.0), d.clone()]),
+                                 Exp::Abs(Exp::UnOp(UnOp::Neg, d.clone().to_box()).to_box()), Exp::Max(vec![Exp::Abs(d.clone().to_box()), n(0.0)]), b(BinOp::Add, Exp::Abs(d.clone().to_box()), n(1.0))];
+                for w in &wraps { for z in &zeros {
+                    pool.push(b(BinOp::Mul, z.clone(), w.clone()));
+                    pool.push(b(BinOp::Mul, w.clone(), z.clone()));
+                    pool.push(b(BinOp::Add, n(1.0), b(BinOp::Mul, z.clone(), w.clone())));
+                } }
+            }
+        }
         let envs = [(-2.0, 0.5), (0.5, 3.0), (3.0, -2.0), (1.0, 1.0)];
         let mut cases = 0u64;
         let mut fails = 0;
